@@ -223,6 +223,111 @@ def read41 (b : Bytes) : Outcome (List (Nat × Nat) × List (List Lig)) :=
       | .panic s => .panic s
   | _ => .err eIO
 
+/-! ### GSUB 8.1 — `Gsub8_1{Input; Backtrack, Lookahead []coverage.Table; SubstituteGlyphIDs}`
+(reverse chaining contextual single substitution) -/
+
+/-- coverage offsets with the refusal of the repair: (offsets, total after the last table) -/
+def covOffsets : List (List Nat) → Nat → Outcome (List Nat × Nat)
+  | [], total => .ok ([], total)
+  | c :: cs, total =>
+    match Cov.encodeLen c with
+    | .ok n =>
+      if total > 0xFFFF then .panic "coverage offset overflow"
+      else match covOffsets cs (total + n) with
+        | .ok (r, t) => .ok (w16 total :: r, t)
+        | o => o
+    | .err e => .err e
+    | .panic s => .panic s
+
+def covsBytes : List (List Nat) → Outcome Bytes
+  | [] => .ok []
+  | c :: cs =>
+    match Cov.encode c with
+    | .ok b =>
+      match covsBytes cs with
+      | .ok r => .ok (b ++ r)
+      | o => o
+    | o => o
+
+def covsLen : List (List Nat) → Outcome Nat
+  | [] => .ok 0
+  | c :: cs =>
+    match Cov.encodeLen c, covsLen cs with
+    | .ok n, .ok r => .ok (n + r)
+    | _, _ => .panic "invalid coverage table"
+
+def encodeLen81 (input : List Nat) (back look : List (List Nat)) (subs : List Nat) : Outcome Nat :=
+  match Cov.encodeLen input, covsLen back, covsLen look with
+  | .ok n, .ok nb, .ok nl => .ok (10 + 2 * back.length + 2 * look.length + 2 * subs.length + n + nb + nl)
+  | _, _, _ => .panic "invalid coverage table"
+
+def encode81 (input : List Nat) (back look : List (List Nat)) (subs : List Nat) : Outcome Bytes :=
+  let covOff := 10 + 2 * back.length + 2 * look.length + 2 * subs.length
+  match Cov.encodeLen input with
+  | .ok n =>
+    match covOffsets back (covOff + n) with
+    | .ok (bo, t1) =>
+      match covOffsets look t1 with
+      | .ok (lo, _) =>
+        if covOff > 0xFFFF then .panic "coverage offset overflow"
+        else match Cov.encode input, covsBytes back, covsBytes look with
+          | .ok ci, .ok cb, .ok cl =>
+            .ok (wordsToBytes ([1, w16 covOff, w16 back.length] ++ bo ++ [w16 look.length] ++ lo ++
+              [w16 subs.length] ++ subs) ++ ci ++ cb ++ cl)
+          | _, _, _ => .panic "invalid coverage table"
+      | .err e => .err e
+      | .panic s => .panic s
+    | .err e => .err e
+    | .panic s => .panic s
+  | .err e => .err e
+  | .panic s => .panic s
+
+def readCovs (b : Bytes) : List Nat → Outcome (List (List (Nat × Nat)))
+  | [] => .ok []
+  | o :: os =>
+    match Cov.read (b.drop o) with
+    | .ok c =>
+      match readCovs b os with
+      | .ok r => .ok (c :: r)
+      | o' => o'
+    | .err e => .err e
+    | .panic s => .panic s
+
+structure Rev81 where
+  input : List (Nat × Nat)
+  back : List (List (Nat × Nat))
+  look : List (List (Nat × Nat))
+  subs : List Nat
+
+/-- `readGsub8_1` -/
+def read81 (b : Bytes) : Outcome Rev81 :=
+  match bytesToWords b with
+  | _ :: covOff :: nb :: r1 =>
+    if r1.length < nb then .err eIO
+    else match r1.drop nb with
+      | nl :: r2 =>
+        if r2.length < nl then .err eIO
+        else match r2.drop nl with
+          | n :: r3 =>
+            if r3.length < n then .err eIO
+            else match Cov.read (b.drop covOff) with
+              | .ok input =>
+                match readCovs b (r1.take nb) with
+                | .ok back =>
+                  match readCovs b (r2.take nl) with
+                  | .ok look =>
+                    let pr := prune input (r3.take n)
+                    .ok ⟨pr.1, back, look, pr.2⟩
+                  | .err e => .err e
+                  | .panic s => .panic s
+                | .err e => .err e
+                | .panic s => .panic s
+              | .err e => .err e
+              | .panic s => .panic s
+          | [] => .err eIO
+      | [] => .err eIO
+  | _ => .err eIO
+
 /-- `readGsubSubtable` for lookup types 1, 2, 3: format word, then dispatch
 (`gsubReaders[10*type+format]`) -/
 inductive Sub where
@@ -230,6 +335,7 @@ inductive Sub where
   | s12 (cov : List (Nat × Nat)) (subs : List Nat)
   | seq (tp : Nat) (cov : List (Nat × Nat)) (seqs : List (List Nat))
   | s41 (cov : List (Nat × Nat)) (repl : List (List Lig))
+  | s81 (r : Rev81)
 
 def readSubtable (tp : Nat) (b : Bytes) : Outcome Sub :=
   match bytesToWords b with
@@ -253,6 +359,11 @@ def readSubtable (tp : Nat) (b : Bytes) : Outcome Sub :=
     else if tp == 4 && fmt == 1 then
       match read41 b with
       | .ok r => .ok (.s41 r.1 r.2)
+      | .err e => .err e
+      | .panic s => .panic s
+    else if tp == 8 && fmt == 1 then
+      match read81 b with
+      | .ok r => .ok (.s81 r)
       | .err e => .err e
       | .panic s => .panic s
     else .err eInvalid
